@@ -237,6 +237,16 @@ partial def stringIndex : PExp → Bool
   | .un _ e => stringIndex e
   | _ => false
 
+/-- a compound variable whose index is a VARIABLE starting with an underscore (`x_{_i}`): it is printed bare, `x__i`,
+which the grammar reads as the literal name fragment `_i` (`underscore_literal`), not as the variable -/
+partial def underscoreVarIndex : PExp → Bool
+  | .cvar _ as => as.any (fun | .var n => n.startsWith "_" | e => underscoreVarIndex e)
+  | .access _ as | .call _ as | .block _ as => as.any underscoreVarIndex
+  | .scoped _ _ its b => its.any underscoreVarIndex || underscoreVarIndex b
+  | .bin _ l r => underscoreVarIndex l || underscoreVarIndex r
+  | .un _ e => underscoreVarIndex e
+  | _ => false
+
 /-- `Debug` of a mixed array: `[Integer(1), Boolean(true)]` (repaired in ceec4dc, kept as regression detector) -/
 def hasDebugArray (d : String) : Bool :=
   ["Integer(", "Boolean(", "Number(", "String(", "PositiveInteger("].any fun k => (d.splitOn k).length > 1
@@ -357,21 +367,21 @@ def allExps (b : PModel) : List PExp :=
 the recurrence of that defect -/
 def knownPrinterDefect (b : PModel) : Option String :=
   let lits := (slots b).foldl (fun acc x => let r := expLiterals x.2; (acc.1 ++ r.1, acc.2 ++ r.2)) (([], []) : List String × List String)
-  if (allExps b).any stringIndex then some "string-index-of-compound-variable-printed-bare"
+  if (allExps b).any underscoreVarIndex then some "underscore-variable-index-printed-as-name-fragment"
+  else if (allExps b).any stringIndex then some "string-index-of-compound-variable-printed-bare"
   else if (allExps b).any floatIndex then some "float-index-of-compound-variable-printed-bare"
   else if (lits.2.find? hasDebugArray).isSome then some "mixed-array-printed-in-debug-form"
   else if (slotsNoIter b).any rangeOutsideIterator || (iterSlots b).any rangeInIterator then
     some "range-call-printed-as-sugar-outside-iterator"
   else none
 
-/-- exact oracle: the PROPERTY evaluated on the implementation's own answer.
-`(check-format <premodel of s> <premodel of format(s) | reject | panic> <idempotent?> <models: same|differ|broke|repaired|na>)` -/
-def oracle : List Sexp → Sexp
-  | [.atom "check-parse", .str text, impl] => classifyParse text impl
-  | [.atom "check-format", before, after, .atom idem, .atom models] =>
+/-- `parse (format s) = s as a program`, evaluated on the implementation's own answers -/
+def checkFormat (before after : Sexp) (idem models graphs : String) : Sexp :=
     match PModel.dec before with
     | none => app "err" [.atom "decode"]
     | some b =>
+      -- the formatted text stands for the program with its one-sided domain bounds completed (`PModel.canon`)
+      let b := b.canon
       -- a deviation of a program that runs into a known printer defect is attributed to that defect
       let attributed (generic : Sexp) : Sexp :=
         match knownPrinterDefect b with
@@ -396,6 +406,7 @@ def oracle : List Sexp → Sexp
         match PModel.dec a with
         | none => app "err" [.atom "decode-after"]
         | some a =>
+          let a := a.canon
           if !(sameSkeleton b a) then attributed (app "violation" [.atom "format-changes-program-skeleton"])
           else
             match ((slots b).zip (slots a)).find? (fun (x, y) => !(sameExp x.2 y.2)) with
@@ -406,10 +417,21 @@ def oracle : List Sexp → Sexp
                   .atom (if valueChanges x.2 y.2 then "value-changes" else "tree-only"), .str x.1, .str (fmtExp x.2)]
               | none => app "violation" [.atom "format-changes-expression", .str x.1, .str (fmtExp x.2), .str (fmtExp y.2)])
             | none =>
-              if models == "broke" && (lits b).any largeIntegralFloat then
+              -- the VALUE of a graph / array literal (nodes, edges, costs — compared by the harness on the
+              -- implementation's own parse of the formatted text) changed although the displays agree
+              if graphs == "graphs-differ" then attributed (app "violation" [.atom "format-changes-graph-literal"])
+              else if models == "broke" && (lits b).any largeIntegralFloat then
                 app "violation" [.atom "integral-float-printed-as-integer-overflows-integer-arithmetic"]
               else if models == "differ" || models == "broke" then attributed (app "violation" [.atom ("compiled-model-" ++ models)])
               else if idem != "true" then attributed (app "violation" [.atom "format-not-idempotent"])
               else app "ok" [.atom models]
+
+/-- exact oracle: the PROPERTY evaluated on the implementation's own answer.
+`(check-format <premodel of s> <premodel of format(s) | reject | panic> <idempotent?> <models: same|differ|broke|repaired|na>
+ [<graphs-same | graphs-differ | graphs-none>])` -/
+def oracle : List Sexp → Sexp
+  | [.atom "check-parse", .str text, impl] => classifyParse text impl
+  | [.atom "check-format", before, after, .atom idem, .atom models] => checkFormat before after idem models "graphs-none"
+  | [.atom "check-format", before, after, .atom idem, .atom models, .atom graphs] => checkFormat before after idem models graphs
   | _ => app "err" [.atom "bad-request"]
 end Rooc.Drv.C11
